@@ -1,6 +1,7 @@
 pub mod c01;
 pub mod c02;
 pub mod c03;
+pub mod c05;
 pub mod c07;
 pub mod c08;
 pub mod c12;
@@ -16,6 +17,7 @@ pub fn registry() -> Vec<PropEntry> {
 		PropEntry { id: "C01", level: "exploration", check: c01::check, replay: c01::replay },
 		PropEntry { id: "C02", level: "exploration", check: c02::check, replay: c02::replay },
 		PropEntry { id: "C03", level: "exploration", check: c03::check, replay: c03::replay },
+		PropEntry { id: "C05", level: "exploration", check: c05::check, replay: c05::replay },
 		PropEntry { id: "C07", level: "exploration", check: c07::check, replay: c07::replay },
 		PropEntry { id: "C08", level: "exploration", check: c08::check, replay: c08::replay },
 		PropEntry { id: "C12", level: "exploration", check: c12::check, replay: c12::replay },
